@@ -186,6 +186,52 @@ def _functions(tree: ast.Module):
             stack.extend(getattr(n, "orelse", []))
 
 
+def _inline_prefix_temps(fn: ast.FunctionDef):
+    """`p = f"{c.ident}:"` ... `k.startswith(p)`  ->  `k.startswith(f"{c.ident}:")`: a local bound
+    once to a formatted string built from attribute chains, and read only as the argument of
+    str.startswith / str.endswith, is a hoisted prefix; the predicates are put back in the spelling
+    the rules know (the operands of the f-string are attribute chains of names that the function
+    does not re-bind, so evaluating it later gives the same string)."""
+    stores, loads = _name_counts(fn)
+    par = {}
+    for n in ast.walk(fn):
+        for c in ast.iter_child_nodes(n):
+            par[c] = n
+    for st in [x for x in ast.walk(fn) if isinstance(x, ast.Assign)]:
+        if not (len(st.targets) == 1 and isinstance(st.targets[0], ast.Name) and isinstance(st.value, ast.JoinedStr)):
+            continue
+        t = st.targets[0].id
+        if stores.get(t) != 1:
+            continue
+        parts = [v.value for v in st.value.values if isinstance(v, ast.FormattedValue)]
+        if not all(_pure_chain(p_) or isinstance(p_, ast.Name) for p_ in parts):
+            continue
+        roots = set()
+        for p_ in parts:
+            r = p_
+            while isinstance(r, ast.Attribute):
+                r = r.value
+            if isinstance(r, ast.Name):
+                roots.add(r.id)
+        if any(stores.get(r, 0) > 1 for r in roots):
+            continue
+        uses = [n for n in ast.walk(fn) if isinstance(n, ast.Name) and n.id == t and isinstance(n.ctx, ast.Load)]
+        ok = uses and all(isinstance(par.get(u), ast.Call) and isinstance(par[u].func, ast.Attribute)
+                          and par[u].func.attr in ("startswith", "endswith") and u in par[u].args for u in uses)
+        if not ok:
+            continue
+        for u in uses:
+            c = par[u]
+            c.args[c.args.index(u)] = ast.copy_location(copy.deepcopy(st.value), u)
+        # the binding itself becomes a no-op expression statement (positions of the other
+        # statements stay as they are)
+        owner = par.get(st)
+        for fld in ("body", "orelse", "finalbody"):
+            blk = getattr(owner, fld, None)
+            if isinstance(blk, list) and st in blk:
+                blk[blk.index(st)] = ast.copy_location(ast.Pass(), st)
+
+
 def normalize_tree(tree: ast.Module):
     """Local canonical forms (no cross-module knowledge needed)."""
     for fn in _functions(tree):
@@ -194,6 +240,7 @@ def normalize_tree(tree: ast.Module):
             _propagate_temps(f_)
             _inline_return_temps(f_)
             _with_for_acquire(f_)
+            _inline_prefix_temps(f_)
         ast.fix_missing_locations(fn)
 
 
